@@ -576,6 +576,12 @@ class Plugin:
                     yield from self._iter_compute(chunk_i=chunk_i, **inputs_merged)
                 if self.gc_collect_after_compute:
                     gc.collect()
+            else:
+                # Only a finite list of chunk numbers (per-chunk processing)
+                # gets here: finish like any other exhausted plugin, so that
+                # the inputs are asked for their end (lazy mode needs that)
+                # and the final checks are done.
+                raise IterDone()
 
         except IterDone:
             # Check all sources are exhausted.
